@@ -91,6 +91,25 @@ def run(chk):
                     exp = bind('Mean', 'B', exp)
                 return check_eq(terms['initial_condition'], exp, 'initial_condition')
             chk.run("C05.R2", SITE['ODE'] + " (initial condition block)", cfg, go, construct="initial_condition[ODE]")
+    # the initial-condition term uses the caller's / parameter-batch values, never the observed parameters
+    for pk in ((), ('nu',)):
+        cfg = {"loss": "ODE", "outputs": 1, "param_batch": list(pk), "observations_with_observed_parameter": "nu"}
+
+        def go(pk=pk):
+            S = SingleLoss(E, 'ODE', 'PINN', m_u=1, terms=('ic', 'obs'))
+            total, terms = S.evaluate(param_keys=pk, observed_params=('nu',))
+            w = S.w['initial_condition']
+            uv = S.u(to_at(S.t0), row_params(E, S.params, pk) if pk else S.params)
+            sq = jnp_sum((uv - S.u0) ** 2, axis=-1).data[()]
+            exp = w * sq
+            if pk:
+                exp = bind('Mean', 'B', exp)
+            check_eq(terms['initial_condition'], exp, 'initial_condition')
+            from .C12 import check_alignment
+            check_alignment({'initial_condition': terms['initial_condition']}, pk, rows="B")
+            return "initial condition evaluated with the caller's / parameter-batch values"
+        chk.run("C05.R2", SITE['ODE'] + " (initial condition block)", cfg, go, construct="initial_condition[ODE] with observations present")
+
     for kind in ('PINN', 'SPINN'):
         for m_u in ((1, 2) if thorough else (1,)):
             for wk in ('scalar', 'vector'):
